@@ -164,14 +164,14 @@ type messenger struct {
 
 func (m *messenger) SendMessage(peerId string, message []byte, messageType int) error {
 	m.life.Op(true)
-	if m.w.ShouldFail(m.node, "msg.send") {
-		m.w.Record(world.Obs{Node: m.node, Inc: m.life.Inc, Kind: "send-failed", Peer: peerId, MsgType: messageType, Payload: string(message), Effect: true})
-		return errors.New("messenger: send failed (injected)")
-	}
 	var probe struct {
 		SwapID string `json:"swap_id"`
 	}
 	_ = json.Unmarshal(message, &probe)
+	if m.w.ShouldFail(m.node, "msg.send") {
+		m.w.Record(world.Obs{Node: m.node, Inc: m.life.Inc, Kind: "send-failed", Peer: peerId, MsgType: messageType, Payload: string(message), SwapID: probe.SwapID, Effect: true})
+		return errors.New("messenger: send failed (injected)")
+	}
 	m.w.Record(world.Obs{Node: m.node, Inc: m.life.Inc, Kind: "send", Peer: peerId, MsgType: messageType, Payload: string(message), SwapID: probe.SwapID, Effect: true, Extra: m.w.LN[m.node].PaySnapshot()})
 	if m.w.Deliver != nil {
 		m.w.Deliver(m.node, peerId, messageType, append([]byte{}, message...))
@@ -341,3 +341,14 @@ func (p *SimPolicy) AddToSuspiciousPeerList(pubkey string) error {
 func (p *SimPolicy) GetReserveOnchainMsat() uint64 { return 0 }
 func (p *SimPolicy) GetMinSwapAmountMsat() uint64  { return p.MinMsat }
 func (p *SimPolicy) NewSwapsAllowed() bool         { return !p.Disabled }
+
+// opPolicy makes the one mutating method of a scenario-supplied policy an effect operation.
+type opPolicy struct {
+	swap.Policy
+	life *world.Life
+}
+
+func (p *opPolicy) AddToSuspiciousPeerList(pubkey string) error {
+	p.life.Op(true)
+	return p.Policy.AddToSuspiciousPeerList(pubkey)
+}
